@@ -21,6 +21,10 @@ for d in sorted(glob.glob('/verif/seeded/*/meta.json')):
         vl = [l for l in r['lines'] if l.startswith('VIOLATION')]
         nf = caught and bool(vl) and all('no-failing-input-found' in l for l in vl)
         res.append("%s: %s" % (p, ("caught (no failing input)" if nf else "caught") if caught else "missed"))
+    for h in m.get('earlier_runs', []):
+        missed = [p for p, e in h.items() if e == 0 and checks.get(p, {}).get('exit', 0) != 0]
+        if missed:
+            res.append("(%s missed it before being strengthened)" % ", ".join(missed))
     ok = m.get('demo_fails_with_change') and m.get('demo_passes_without_change') and not m.get('existing_suite_with_change', {}).get('unexpected_failures')
     rows.append((name, desc, "; ".join(res), "yes" if ok else "CHECK", m.get('needs', '')))
 out = ["| seeded change | what it does | checks run against it | confirmed (demo fails with / passes without, suite green) |", "|---|---|---|---|"]
